@@ -23,7 +23,7 @@ CLAIMED = {
             '(complete registry seeds, add-before-reuse); carry-over of factors/domains/start/edges; edge-placement guard truth table; caller-supplied avoid set honoured and seeded with the rule\'s own lhs; primal-graph vertices and cliques; child recursion iff not the parent bag',
             'parameter-forwarding dataflow; fresh-name typestate; guard truth tables'),
     'C06': ('element-wise wrapper homomorphism: the function applied to `default` equals the function applied to `physical` and the torch op of that name on every float class '
-            '(abstract interpretation of the method bodies); identities/defaults of commutative and binary(...) ops; in-place discipline and no-aliasing of self.physical by effect analysis',
+            '(abstract interpretation of the method bodies); identities/defaults of commutative and binary(...) ops; in-place discipline and no-aliasing of self.physical by effect analysis; derived state (caches) follows its sources; slices computed from a dim parameter see it non-negative',
             'abstract interpretation over float classes; effect analysis'),
     'C07': ('einsum callbacks agree with the semiring mul on every class pair; operands default_to(zero) before unification and results default to from_int(0); '
             'mv/mm index strings; pointer trailing dimension agreement over all returns; co-indexing loop visits every (axis, index) position; stride-0 reduction only for sum-free equations',
@@ -34,7 +34,7 @@ CLAIMED = {
     'C09': ('solver entry points have no write effect on their arguments (ownership/effect analysis); thunks return fresh tensors; LU result accepted only under both acceptance tests, '
             'consumed buffers never reused on the fallback path; every `.T` in multi_solve/multi_mv applied to a value of rank two (rank inference with reaching definitions)',
             'storage-ownership effect analysis + typestate on the CFG'),
-    'C10': ('every connected component contributes to acb\'s result and the loop never returns early; dispatch table agreement with README/bin; bound helpers copy before eliminating; the reported width is updated before every vertex enters the returned order; in tree_decomposition_from_order every new bag is linked to an existing one on all paths once other bags exist (one tree, not a forest)',
+    'C10': ('every connected component contributes to acb\'s result and the loop never returns early; dispatch table agreement with README/bin; bound helpers copy before eliminating; the reported width is updated before every vertex enters the returned order; in tree_decomposition_from_order every new bag is linked to an existing one on all paths once other bags exist (one tree, not a forest); every running maximum of a len() in factorize.py measures a neighbour set (degree), not a bag',
             'accumulate-all path rule; dispatch-table agreement'),
     'C11': ('assert / __debug__ purity (no effect, binds nothing read later); option plumbing from bin/sum_product.py and between forward/backward; multiplier at most once on the j_precompute path',
             'effect analysis of asserts; option-forwarding dataflow; abstract counting'),
@@ -44,11 +44,11 @@ CLAIMED = {
             'writer/reader shape agreement; guard evaluation on abstract index values'),
     'C15': ('type check precedes every write in replace_edge; host nodes/edges constructed with fresh ids; every replacement node/edge and every child derivation contributes; what enters the host is a newly constructed Node/Edge on every path; derive assigns every rhs node',
             'validate-before-mutate path rule; fresh-id rule; accumulate-all'),
-    'C16': ('validate-before-mutate over the mutators of Graph/HRG/FactorGraph/FGG; registry hits verified; copy completeness (attributes and element-wise loops) and independence (deep copies of tables with mutable values); __eq__/__ne__ truth tables; Edge typing established in Edge.__init__; who-may-write registries; Iterable parameters consumed once; builtin KeyError sources count as may-raise',
+    'C16': ('validate-before-mutate over the mutators of Graph/HRG/FactorGraph/FGG; registry hits verified; copy completeness (attributes and element-wise loops) and independence (deep copies of tables with mutable values); __eq__/__ne__ truth tables; Edge typing established in Edge.__init__; who-may-write registries; value classes compare by all fields; derived state follows its sources; Iterable parameters consumed once; builtin KeyError sources count as may-raise',
             'CFG path rules (raise-after-write), field-coverage and who-may-write queries over the class model'),
     'C17': ('conjoin_rules called only under conjoinable(); fresh-name protocol for paired nonterminals; ValueError raised exactly for terminal/terminal conflicts; conjoinable() decides by nodes, ordered attachments and ordered externals; paired rule shape',
             'guard dominance; fresh-name typestate; guard truth table'),
-    'C18': ('public queries have no write effect on parameter roots; every tensor in-place sink in their call graphs writes fresh or owned storage; clone results share no storage with self; no mutable default argument that is written or handed out; no module-level mutable written',
+    'C18': ('public queries have no write effect on parameter roots; every tensor in-place sink in their call graphs writes fresh or owned storage; clone results share no storage with self; no mutable default argument that is written or handed out; no module-level mutable written; no decorator that keeps state between calls',
             'interprocedural storage-ownership and effect analysis'),
     'C19': ('nonterminal_graph vertices come from the complete nonterminal registry and an edge is added for every nonterminal rhs edge of every rule; scc starts a visit from every unvisited vertex; consumers iterate the result in order and store every label; Tarjan low-link truth table; stack / on-stack set mirrored; component-local state of the consumers\' loops',
             'vertex/edge-source coverage; iteration-source rules'),
